@@ -457,6 +457,8 @@ def run(ctx):
         "as a wrong result rather than only as a crash (crashes are caught too)",
         "calling a function object, or dereferencing a pointer, obtained BEFORE the close is outside the property "
         "(documented as undefined) and is not exercised"]
+    from props import c29
+    c29.settle_obligations(ctx, "C37", GEN, translate_close_paths)
     evaluate(ctx, generate(ctx))
 
 
